@@ -240,7 +240,7 @@ fn families_for(prop: &str, quick: bool) -> Vec<&'static str> {
     match prop {
         "C01" => vec!["F1", "F2", "F3", "F4", "F5", "F6"],
         "C02" => vec!["F1", "F2", "F3", "F4", "F5", "F6"],
-        "C03" => vec!["F1", "F2", "F5", "F6"],
+        "C03" => vec!["F6", "F5", "F1", "F2"],
         "C06" => vec!["F6"],
         "C07" => vec!["F1", "F2", "F3", "F4", "F5", "F6", "F7"],
         "C08" => {
@@ -256,17 +256,17 @@ fn families_for(prop: &str, quick: bool) -> Vec<&'static str> {
 
 fn edb_budget(prop: &str, quick: bool) -> usize {
     match (prop, quick) {
-        ("C01", true) => 60,
+        ("C01", true) => 180,
         ("C01", false) => 700,
-        ("C02", true) => 6,
+        ("C02", true) => 8,
         ("C02", false) => 60,
         ("C03", true) => 24,
         ("C03", false) => 300,
         ("C06", true) => 24,
         ("C06", false) => 140,
-        ("C07", true) => 50,
+        ("C07", true) => 150,
         ("C07", false) => 600,
-        ("C08", true) => 20,
+        ("C08", true) => 40,
         ("C08", false) => 200,
         _ => 50,
     }
@@ -340,6 +340,12 @@ pub fn run(args: &Args) -> i32 {
         let edbs = if prop == "C03" { edbs_c03(p, run.quick()) } else { edbs_for(p, &b, budget) };
         let arity = p.query_arity();
         let feat = feature(p);
+        // recursive min/max over a cyclic weighted graph need not terminate (max) - acyclic EDBs only
+        let edbs: Vec<Db> = if g.family == "F7recagg" {
+            edbs.into_iter().filter(|d| d.get("w").map_or(true, |w| w.iter().all(|r| r[0] < r[1]))).collect()
+        } else {
+            edbs
+        };
         for edb in &edbs {
             let expect = match eval_query(p, edb) {
                 Ok(r) => r,
